@@ -18,7 +18,10 @@ func init() {
 			"append/copy into a node's backing array, address handed to a writer) must go through a node that is Fresh " +
 			"(allocated here / returned by a function returning only fresh nodes) or Unshared (ToMut result, or flags tested); " +
 			"writes through a parameter become a requirement on every caller, to a fixpoint; writes unreachable under the " +
-			"shared-state valuation (shared ∧ ¬dirty ∧ source≠nil) of that parameter are discharged.",
+			"shared-state valuation (shared ∧ ¬dirty ∧ source≠nil) of that parameter are discharged, and so is a requirement at a call site that is unreachable under it. " +
+			"A branch on the boolean result of a same-package predicate that is handed the parameter (`_, done, _ := node.storedAs(); if done {return}`) is evaluated by evaluating the " +
+			"predicate's reachable returns under the valuation of its own parameter; this stays sound because any write to the flags that is reachable under the valuation — in the caller " +
+			"or in the predicate — is itself an undischarged write and is reported.",
 		Run: runOWN,
 	})
 }
@@ -58,7 +61,7 @@ func runOWN(c *Ctx) {
 	}
 	sort.Slice(keys, func(i, j int) bool {
 		if keys[i].fn.Pos() != keys[j].fn.Pos() {
-			return keys[i].fn.Pos() < keys[j].fn.Pos()
+			return ir.PosLess(keys[i].fn.Pos(), keys[j].fn.Pos())
 		}
 		return keys[i].idx < keys[j].idx
 	})
